@@ -34,25 +34,26 @@ KF_ABS = "num:abs-most-negative"
 
 def plan(tier):
     q = [
-        {"h": "num_neg_i", "sym": "x: isize"},
         {"h": "num_abs_i", "sym": "x: isize"},
         {"h": "num_add_ii", "sym": SYM2},
-        {"h": "num_even_odd_i", "sym": "x: isize"},
-        {"h": "num_add_big_i", "sym": "big integer a just beyond +-2^63, y: isize, either argument order"},
         {"h": "num_neg_rational", "sym": "n/3 for every i32 n not divisible by 3"},
         {"h": "num_int_float_equality", "sym": "i: isize, f: finite f64"},
         {"h": "num_arithmetic_shift_exact", "sym": "n: isize, m: isize (both full width)"},
         {"h": "num_expt_reciprocal", "sym": "(expt l -1), l: every non-zero integer with i32::MIN < l <= i32::MAX"},
         {"h": "num_exact_of_integral_double", "sym": "(exact f), f: every finite integral f64"},
-        {"h": "num_magnitude_i", "sym": "x: isize"},
         {"h": "num_truncate_quotient_i_big", "sym": "x: isize (full width), divisor 2^63 + off or -(2^63 + 1 + off), off: u16"},
         {"h": "num_cmp_int_float", "sym": "(< i f), (< f i) ...: i: isize (full width), f: every finite f64"},
-        {"h": "num_cmp_int_big", "sym": "i: isize (full width) against a big integer just beyond +-2^63, both orders"},
         {"h": "num_floor_rational", "sym": "(floor n/d): n: every i32 coprime to d, d in {2,3,5,7}"},
-        {"h": "num_ceiling_rational", "sym": "(ceiling n/d): n: every i32 coprime to d, d in {2,3,5,7}"},
         {"h": "num_recip_i", "sym": "(/ x): x: isize (full width)"},
     ]
     t = [
+        # moved out of the quick tier in round 3 (vp check stops a quick command after 900 s):
+        {"h": "num_neg_i", "sym": "x: isize"},
+        {"h": "num_even_odd_i", "sym": "x: isize"},
+        {"h": "num_add_big_i", "sym": "big integer a just beyond +-2^63, y: isize, either argument order"},
+        {"h": "num_magnitude_i", "sym": "x: isize"},
+        {"h": "num_cmp_int_big", "sym": "i: isize (full width) against a big integer just beyond +-2^63, both orders"},
+        {"h": "num_ceiling_rational", "sym": "(ceiling n/d): n: every i32 coprime to d, d in {2,3,5,7}"},
         {"h": "num_add_fallible_ii", "sym": SYM2},
         {"h": "num_sub_ii", "sym": SYM2},
         {"h": "num_sub_big_i", "sym": "big integer a, y: isize"},
